@@ -331,6 +331,7 @@ struct Utxo {
     multisig_uncompressed: bool,
     /// none | top-level | in-branch | after-branch
     sep_class: &'static str,
+    sep_untaken: bool,
     /// plain P2PKH whose locking script was assembled by the library (P2PKHAddress::get_locking_script), not by the harness
     lock_from_api: bool,
 }
@@ -422,6 +423,9 @@ fn build_utxo(u: &Value) -> Option<Utxo> {
     seps.dedup();
     let sep_in_branch = jbool(u, "sep_in_branch");
     let branch_at = jusize(u, "branch_at") % (check_idx + 1);
+    // a separator that is present but never executes (round 11): it must not move the subscript
+    let sep_untaken = jbool(u, "sep_untaken") && !sep_in_branch;
+    let untaken_at = jusize(u, "untaken_at") % (check_idx + 1);
     let mut lock: Vec<u8> = vec![];
     let mut last_sep_end: usize = 0; // byte offset right after the last executed separator
     let mut branch_tail: Option<usize> = None;
@@ -437,6 +441,18 @@ fn build_utxo(u: &Value) -> Option<Utxo> {
                 1 => lock.extend_from_slice(&[0x67, 0x68]),
                 2 => lock.extend_from_slice(&[0x67, 0x61, 0x68]),
                 _ => lock.push(0x68),
+            }
+        }
+        if sep_untaken && p == untaken_at {
+            match jusize(u, "untaken_form") {
+                // OP_0 OP_IF OP_CODESEPARATOR OP_ENDIF
+                0 => lock.extend_from_slice(&[0x00, 0x63, 0xab, 0x68]),
+                // OP_0 OP_IF OP_CODESEPARATOR OP_ELSE OP_NOP OP_ENDIF
+                1 => lock.extend_from_slice(&[0x00, 0x63, 0xab, 0x67, 0x61, 0x68]),
+                // OP_1 OP_NOTIF OP_CODESEPARATOR OP_ENDIF
+                2 => lock.extend_from_slice(&[0x51, 0x64, 0xab, 0x68]),
+                // OP_1 OP_IF OP_ELSE OP_CODESEPARATOR OP_ENDIF : the separator sits in the else branch of a taken IF
+                _ => lock.extend_from_slice(&[0x51, 0x63, 0x67, 0xab, 0x68]),
             }
         }
         if seps.contains(&p) {
@@ -462,7 +478,8 @@ fn build_utxo(u: &Value) -> Option<Utxo> {
     let last_is_branch = sep_in_branch && branch_tail.is_some();
     let sep_class = if last_is_branch {
         "in-branch"
-    } else if sep_in_branch && seps.iter().any(|p| *p >= branch_at) {
+    } else if (sep_in_branch && seps.iter().any(|p| *p >= branch_at)) || (sep_untaken && jusize(u, "untaken_form") == 1 && seps.iter().any(|p| *p >= untaken_at)) {
+        // (a non-empty else branch that is spliced in shifts the index of every later separator, like a taken branch does)
         "after-branch"
     } else if last_sep_end > 0 {
         "top-level"
@@ -475,7 +492,7 @@ fn build_utxo(u: &Value) -> Option<Utxo> {
     let mut subscript = subscript;
     let mut subscript_first = subscript_first;
     let mut lock_from_api = false;
-    if family == "p2pkh" && jbool(u, "lock_api") && seps.is_empty() && !sep_in_branch && pad == 0 && !verify {
+    if family == "p2pkh" && jbool(u, "lock_api") && seps.is_empty() && !sep_in_branch && !sep_untaken && pad == 0 && !verify {
         let pkb = pubkey_bytes(keys[0], compressed);
         let api = guard(|| -> Option<Vec<u8>> {
             let pk = PublicKey::from_bytes(&pkb).ok()?;
@@ -491,7 +508,7 @@ fn build_utxo(u: &Value) -> Option<Utxo> {
             }
         }
     }
-    Some(Utxo { family, m, keys, verify, value: ju64s(u, "value"), txid, vout, lock, subscript, subscript_first, sep_in_branch: last_is_branch, n_seps: seps.len(), compressed, multisig_uncompressed: jbool(u, "multisig_uncompressed"), sep_class, lock_from_api })
+    Some(Utxo { family, m, keys, verify, value: ju64s(u, "value"), txid, vout, lock, subscript, subscript_first, sep_in_branch: last_is_branch, n_seps: seps.len(), sep_untaken, compressed, multisig_uncompressed: jbool(u, "multisig_uncompressed"), sep_class, lock_from_api })
 }
 
 struct SigRec {
@@ -584,7 +601,7 @@ impl Scenario for SpendNet {
             txid[0] = u as u8;
             utxos.push(json!({"family": family, "m": rng.range(1, n), "keys": keys, "verify": rng.chance(1, 3), "uncompressed": rng.chance(1, 5), "seps": seps,
                 "sep_in_branch": rng.chance(1, 12), "branch_at": rng.below(8), "pad": if rng.chance(1, 4) { *rng.pick(&[1u64, 75, 76, 200, 255, 256, 300]) } else { 0 }, "pad_to": if rng.chance(1, 8) { *rng.pick(&[252u64, 253, 254, 252, 253, 65535, 65536, 65537]) } else { 0 },
-                "branch_form": rng.below(3), "lock_api": rng.chance(1, 2), "sep_after_check": rng.chance(1, 4), "multisig_uncompressed": rng.chance(1, 8), "coinbase_like": rng.chance(1, 30), "value": u64s(match rng.below(8) { 0 => 0, 1 => u64::MAX, 2 => u64::MAX - 1, 3 => (1u64 << 53) + 1, 4 => rng.below(1 << 63) | 1, 5 => (1u64 << 63) + 1025, _ => rng.below(1 << 44) }), "txid": hx(&txid), "vout": rng.below(3)}));
+                "branch_form": rng.below(3), "sep_untaken": rng.chance(1, 10), "untaken_at": rng.below(8), "untaken_form": rng.below(4), "lock_api": rng.chance(1, 2), "sep_after_check": rng.chance(1, 4), "multisig_uncompressed": rng.chance(1, 8), "coinbase_like": rng.chance(1, 30), "value": u64s(match rng.below(8) { 0 => 0, 1 => u64::MAX, 2 => u64::MAX - 1, 3 => (1u64 << 53) + 1, 4 => rng.below(1 << 63) | 1, 5 => (1u64 << 63) + 1025, _ => rng.below(1 << 44) }), "txid": hx(&txid), "vout": rng.below(3)}));
         }
         let mut events = vec![json!({"op": "setup", "utxos": utxos, "version": *rng.pick(&[1u32, 2, 0, u32::MAX]), "locktime": *rng.pick(&[0u32, 1, 499_999_999, u32::MAX])})];
         let n_events = rng.range(6, 40);
@@ -1548,6 +1565,9 @@ impl SpendNet {
                     }
                     let ut = utxos[m.ins[i].utxo].clone();
                     ctx.probe(&format!("family_{}", ut.family));
+                    if ut.sep_untaken {
+                        ctx.probe("separator_unexecuted_present");
+                    }
                     if ut.sep_class != "none" {
                         ctx.probe("separator_present");
                         ctx.probe(&format!("separator_{}", ut.sep_class));
@@ -1773,6 +1793,11 @@ impl SpendNet {
                     if jbool(u, "sep_in_branch") {
                         let mut e = ev.clone();
                         e["utxos"][k]["sep_in_branch"] = json!(false);
+                        out.push(e);
+                    }
+                    if jbool(u, "sep_untaken") {
+                        let mut e = ev.clone();
+                        e["utxos"][k]["sep_untaken"] = json!(false);
                         out.push(e);
                     }
                     if jbool(u, "verify") {
